@@ -90,8 +90,17 @@ TOpenPath ==
               ELSE /\ e.res = "ok"
                    /\ e.count = (IF has("shx") THEN (IF cstatus = "ok" THEN n ELSE e.count) ELSE -2)
 
+\* A row the caller's own row type refuses is reported as an error for THAT pair; the iteration goes on and the
+\* pairs after it are not shifted against each other (shape i still comes with row i)
+TRowErr ==
+    /\ Ev("rowerr") /\ UNCHANGED << cvars, ndev >>
+    /\ LET e == Rec[l]
+       IN  /\ e.panic = ""
+           /\ Len(e.items) = e.n
+           /\ \A i \in 1..e.n : e.items[i] = (IF i = e.hole THEN << -1, -1 >> ELSE << i, i >>)
+
 Init == l = 2 /\ CInit /\ ndev = 0
-Next == TReset \/ TPair \/ TCDrop \/ TOpenPath
+Next == TReset \/ TPair \/ TCDrop \/ TOpenPath \/ TRowErr
 Spec == Init /\ [][Next]_vars
 
 Accepted ==
